@@ -58,7 +58,7 @@ def seeded(ctx, n, length):
     rng = random.Random(ctx.seed * 31337 + 4)
     out = []
     for i in range(n):
-        mx = rng.randint(1, 5)
+        mx = rng.choice([0, 1, 1, 2, 3, 4, 5, 50])
         nsrc = rng.randint(1, 6)
         steps, running, rid = [], [], 0
         for _ in range(length):
